@@ -20,6 +20,9 @@ import (
 	"bytes"
 	"errors"
 	"io"
+	"slices"
+
+	"seehuhn.de/go/pdf/internal/limits"
 )
 
 // A Copier is used to copy objects from one PDF file to another. The Copier
@@ -212,16 +215,62 @@ func (c *Copier) CopyArray(obj Array) (Array, error) {
 // CopyReference copies a reference from the source file to the target file.
 //
 // This method shortens chains of indirect references, the returned reference
-// always points to a direct object.
+// always points to a direct object.  All references of such a chain are
+// translated to the same target reference, so that an object which is reached
+// directly and through an indirect object whose value is a reference to it is
+// copied only once.
 func (c *Copier) CopyReference(obj Reference) (Reference, error) {
 	newRef, ok := c.trans[obj]
 	if ok {
 		return newRef, nil
 	}
+
+	// Follow the chain "N 0 obj M 0 R endobj" one link at a time (this is
+	// what Resolve does, with the same loop and depth checks), looking every
+	// link up in the translation table.
+	chain := []Reference{obj}
+	var val Native
+	for cur := obj; ; {
+		next, err := c.r.Get(cur, true)
+		if IsReadError(err) {
+			return 0, err
+		} else if err != nil {
+			// a reference to a malformed source object resolves to null
+			// (PDF 2.0, 7.3.10); leave val nil and copy null in its place
+			chain = chain[:1]
+			break
+		}
+		ref, isRef := next.(Reference)
+		if !isRef {
+			val = next // nil for an undefined object
+			break
+		}
+		if known, ok := c.trans[ref]; ok {
+			// the rest of the chain is copied already
+			for _, key := range chain {
+				c.trans[key] = known
+				c.added = append(c.added, key)
+			}
+			return known, nil
+		}
+		if slices.Contains(chain, ref) || len(chain) >= limits.MaxExtractDepth {
+			// a reference loop or an over-deep chain resolves to null
+			chain = chain[:1]
+			break
+		}
+		chain = append(chain, ref)
+		cur = ref
+	}
+
 	mark := len(c.added)
 	newRef = c.w.Alloc()
-	c.trans[obj] = newRef
-	c.added = append(c.added, obj)
+	for _, key := range chain {
+		c.trans[key] = newRef
+		c.added = append(c.added, key)
+	}
+	// On failure the allocated reference is never written, so neither it
+	// nor anything entered while copying below it may stay in the
+	// translation table.
 	fail := func(err error) (Reference, error) {
 		for _, key := range c.added[mark:] {
 			delete(c.trans, key)
@@ -230,14 +279,6 @@ func (c *Copier) CopyReference(obj Reference) (Reference, error) {
 		return 0, err
 	}
 
-	// On failure the allocated reference is never written, so it must not
-	// stay in the translation table.
-	val, err := Resolve(c.r, obj)
-	if IsReadError(err) {
-		return fail(err)
-	}
-	// a reference to a malformed or undefined source object resolves to
-	// null (PDF 2.0, 7.3.10); leave val nil and copy null in its place
 	trans, err := c.Copy(val)
 	if err != nil {
 		return fail(err)
